@@ -38,3 +38,12 @@ Proof. vm_compute. split; [reflexivity|]. repeat constructor. Qed.
 (* dynamicSourceWriter.Write was found and classified (lock released before / held across the forwarder Write) *)
 Lemma source_writer_shape_known : SourceWriterShapeFound = true.
 Proof. reflexivity. Qed.
+
+(* round 3: the three shapes were found and classified (which variant holds is the regenerated flag that selects the model
+   variant the harness run is compared with) *)
+Lemma stream_acquire_shape_known : StreamAcquireShapeFound = true.
+Proof. reflexivity. Qed.
+Lemma mapping_cleanup_shape_known : MappingCleanupFound = true.
+Proof. reflexivity. Qed.
+Lemma bridge_close_shape_known : BridgeCloseFound = true.
+Proof. reflexivity. Qed.
